@@ -35,6 +35,7 @@ def run(rep, tier):
         rep.call(simd_rules.zero_extend, rep, prog, "C18.zero-extend")
         rep.call(simd_rules.pixel_sign, rep, prog, "C18.pixel-sign")
         rep.call(simd_rules.native_clip, rep, prog, "C18.native-clip")
+        rep.call(simd_rules.tail_initial, rep, prog, "C18.tail-initial", {"x86": 4}.get(cfg, 1))
         rep.call(simd_rules.conv_saturate, rep, prog, "C18.saturate")
         rep.call(simd_rules.arith_shift, rep, prog, "C18.arith-shift", {"x86": 30, "arm": 20, "wasm": 5}.get(cfg, 5))
         if cfg.startswith("x86"):
